@@ -16,6 +16,40 @@ type structCase struct {
 	B     int    `json:"b"`
 	Kind  string `json:"kind"` // find: c r b l m ; replace: name of the replacement function
 	Eff   *Eff   `json:"eff,omitempty"`
+	Effs  []Eff  `json:"effs"` // exprsmany: several effects
+}
+
+// results handed out by earlier calls of the process are kept alive and re-read after every later call
+type keptSlice struct {
+	what string
+	xs   []expr.Expr
+	snap string
+}
+
+var keptResults []keptSlice
+
+func snapExprs(xs []expr.Expr) string {
+	out := ""
+	for _, x := range xs {
+		out += exprJSON(x) + ";"
+	}
+	return out
+}
+
+func keep(what string, xs []expr.Expr) {
+	if len(keptResults) > 64 {
+		keptResults = keptResults[32:]
+	}
+	keptResults = append(keptResults, keptSlice{what: what, xs: xs, snap: snapExprs(xs)})
+}
+
+func keptChanged() string {
+	for _, k := range keptResults {
+		if snapExprs(k.xs) != k.snap {
+			return k.what
+		}
+	}
+	return ""
 }
 
 type structEvent struct {
@@ -26,6 +60,7 @@ type structEvent struct {
 	OutEff Eff    `json:"outeff"`
 	ONodes []Node `json:"onodes"` // input table extended by the outputs (same hash-consing)
 	Same   bool   `json:"same"`   // replace: the result is the very same tree (structurally) as the input
+	RetMut string `json:"retmut"` // a result returned by an earlier call has changed (which one)
 	Panic  string `json:"panic"`
 }
 
@@ -85,6 +120,9 @@ func init() {
 			panic(err)
 		}
 		es := Build(c.Nodes)
+		if c.Effs == nil {
+			c.Effs = []Eff{}
+		}
 		ev := structEvent{structCase: c, Found: []int{}, ONodes: []Node{}}
 		d := NewDag()
 		for i := 1; i < len(es); i++ { // re-intern the inputs: indices stay the same because the table is hash-consed
@@ -127,9 +165,21 @@ func init() {
 				out := replaceNamed(c.Kind, es[c.A])
 				ev.Out = d.Add(out)
 			case "exprs":
-				for _, x := range exprtransform.Exprs(buildEff(es, c.Eff)) {
+				xs := exprtransform.Exprs(buildEff(es, c.Eff))
+				for _, x := range xs {
 					ev.Found = append(ev.Found, d.Add(x))
 				}
+				keep("result of Exprs in "+c.Case, xs)
+			case "exprsmany":
+				var effs []expr.Effect
+				for i := range c.Effs {
+					effs = append(effs, buildEff(es, &c.Effs[i]))
+				}
+				xs := exprtransform.ExprsMany(effs)
+				for _, x := range xs {
+					ev.Found = append(ev.Found, d.Add(x))
+				}
+				keep("result of ExprsMany in "+c.Case, xs)
 			case "effapply":
 				out := exprtransform.EffectApply(buildEff(es, c.Eff), func(e expr.Expr) expr.Expr {
 					return expr.NewBinary(expr.Add, e, expr.Zero, e.Width())
@@ -139,6 +189,7 @@ func init() {
 				panic("harness: unknown struct op " + c.Op)
 			}
 		})
+		ev.RetMut = keptChanged()
 		ev.ONodes = d.Nodes
 		if ev.ONodes == nil {
 			ev.ONodes = []Node{}
